@@ -134,3 +134,82 @@ rule('C16.9')(c15.helpers)                      # Merge looks its op up on the t
 rule('C20.19')(c07.vars_no_retain)              # scope variables are per evaluation
 rule('C01.15')(c13.tree_structure)              # a subclass of dict / list keeps its base's accessor: adoption keeps every sibling
 rule('C12.10')(c20.memos_monotone)              # a cached wildcard path is the fully translated one (delete side)
+
+
+# a package-wide convention decided per property over the code the property is about
+from .common import absent_means_none
+
+
+def _absent(modules, classes=None):
+    def absent_means_none_here(ctx):
+        return absent_means_none(ctx, modules, classes)
+    absent_means_none_here.__doc__ = absent_means_none.__doc__
+    absent_means_none_here.__name__ = 'absent_means_none'
+    return absent_means_none_here
+
+
+rule('C02.13')(_absent(('core',), ('TType', 'Call', 'Invoke', 'Path')))
+rule('C03.17')(_absent(('core',), ('Coalesce', 'Call', 'Invoke', 'Ref', 'Spec', 'Val', 'Auto', 'Fill', 'Pipe', 'Inspect', 'Let')))
+rule('C07.15')(_absent(('core',), ('Spec', 'Vars', 'ScopeVars', 'Let', 'Ref', 'Glommer')))
+rule('C09.15')(_absent(('matching',), ('Match', 'Regex', 'Optional', 'Required', 'MatchError', 'TypeMatchError')))
+rule('C10.9')(_absent(('matching',), ('_Bool', 'And', 'Or', 'Not', '_MSubspec', '_MExpr', '_MType', 'Switch', 'Check', 'CheckError')))
+rule('C11.14')(_absent(('mutation',)))
+rule('C12.11')(_absent(('mutation',)))
+rule('C13.14')(_absent(('core',), ('TargetRegistry', 'Glommer')))
+rule('C15.10')(_absent(('reduction',)))
+rule('C16.10')(_absent(('grouping',)))
+rule('C17.9')(_absent(('streaming',)))
+
+
+from .common import parameters_kept, recorded_as_given
+
+
+def _kept(modules, classes=None, methods=None, floor=0):
+    def parameters_kept_here(ctx):
+        n = parameters_kept(ctx, modules, classes, methods)
+        ctx.ob(True, 'package', 'parameter rebindings examined: %d' % n)
+    parameters_kept_here.__doc__ = parameters_kept.__doc__
+    parameters_kept_here.__name__ = 'parameters_kept'
+    return parameters_kept_here
+
+
+_ERRORS = ('GlomError', 'PathAccessError', 'PathAssignError', 'CoalesceError', 'UnregisteredTarget', 'BadSpec')
+rule('C01.16')(_kept(('core',), _ERRORS + ('Path', 'TType')))
+rule('C02.14')(_kept(('core',), _ERRORS + ('Call', 'Invoke', 'TType', 'Path')))
+rule('C02.15')(recorded_as_given)
+rule('C18.13')(recorded_as_given)
+rule('C03.18')(_kept(('core',), ('Coalesce', 'Call', 'Invoke', 'Ref', 'Spec', 'Val', 'Auto', 'Fill', 'Pipe', 'Inspect', 'Let')))
+rule('C04.19')(_kept(('core', 'matching', 'mutation', 'reduction'), _ERRORS + ('MatchError', 'TypeMatchError', 'CheckError', 'PathDeleteError', 'FoldError')))
+rule('C05.16')(_kept(('core', 'matching'), _ERRORS + ('MatchError', 'TypeMatchError', 'CheckError')))
+rule('C07.16')(_kept(('core',), ('Spec', 'Vars', 'ScopeVars', 'Let', 'Ref', 'Glommer', 'Pipe')))
+rule('C08.13')(_kept(('core',), ('Fill', 'Auto', 'Pipe', 'Spec', 'Val')))
+rule('C09.16')(_kept(('matching',), ('Match', 'Regex', 'Optional', 'Required')))
+rule('C10.10')(_kept(('matching',), ('_Bool', 'And', 'Or', 'Not', '_MSubspec', '_MExpr', '_MType', 'Switch', 'Check')))
+rule('C11.15')(_kept(('mutation',), ('Assign',)))
+rule('C12.12')(_kept(('mutation',), ('Delete',)))
+rule('C13.15')(_kept(('core',), ('TargetRegistry', 'Glommer')))
+rule('C15.11')(_kept(('reduction',)))
+rule('C16.11')(_kept(('grouping',)))
+rule('C17.10')(_kept(('streaming',)))
+
+
+# round-6 seeds: clauses shared between properties
+rule('C03.19')(c02.literal_passthrough)         # Call / Coalesce arguments: dict keys in argument position are sub-specs too
+rule('C04.20')(c13.nested_evaluation_keeps_the_registry)   # errors are translated once, by the outermost entry point
+rule('C20.20')(c13.nested_evaluation_keeps_the_registry)   # a re-entrant evaluation shares the running call's frame chain
+rule('C09.17')(c05.message_templates_are_constant)   # a Regex / Match rejection can always be rendered
+rule('C04.21')(c05.message_templates_are_constant)   # str() of a glom failure is total
+rule('C14.15')(c11.broadcast_counts_the_fetched_path)   # Assign / Delete through wildcards act on every entry
+rule('C12.13')(c11.broadcast_counts_the_fetched_path)
+rule('C04.22')(c05.formatting_invariants)          # finalising an error cannot itself fail (the original class must leave glom())
+rule('C19.7')(c05.formatting_invariants)           # the CLI prints str(error): rendering is total
+rule('C05.18')(c09.dict_branch)                    # every attempted key of a Match dict is evaluated in its own frame (the trace lists it)
+rule('C07.18')(c08.arg_mode_bracketed)             # an argument is evaluated in a child frame: binders inside it do not leak
+rule('C08.14')(c07.caller_scope_copied)            # the root frame's mode bookkeeping is glom()'s own, not the caller's
+rule('C08.15')(c07.per_call_roots)
+rule('C08.16')(c17.terminals)                      # First's default is an argument (evaluated in argument mode)
+rule('C11.17')(c13.memo_invalidation)              # the assign handler follows a later registration of a base class
+rule('C12.14')(c13.memo_invalidation)
+rule('C12.15')(c01.path_keeps_every_part)          # Path('*', 'k') addresses the key '*', not every child
+rule('C13.16')(c14.default_registration_order)     # a more specific registered type is never shadowed by a predicate type
+rule('C20.22')(c16.item_loop)                      # every Group evaluation starts from its own empty container
